@@ -48,6 +48,14 @@ class PrinterStrings:
             return {expr["v"]}
         if k in ("AddrOf", "Unary"):
             return self.strs(expr["e"], fn, depth)
+        if k == "Path" and expr.get("res") != "local" and expr.get("def"):
+            # a named constant (`const ARRAY_RUNTYPE: &str = "ArrayRuntype"`): its initialiser
+            ct = self.F.hir.get(self.F._callee_gid("beff_core", expr["def"])) or self.F.hir.get(expr["def"])
+            if ct is not None and not ct.get("params"):
+                return self.strs(ct["body"], fn, depth + 1)
+            return {None}
+        if k == "BlockExpr" and not expr["block"]["stmts"] and expr["block"].get("expr") is not None:
+            return self.strs(expr["block"]["expr"], fn, depth)
         if k == "Path" and expr.get("res") == "local":
             name = expr["name"]
             ps = self.params.get(fn, [])
